@@ -1,8 +1,151 @@
-"""SimFS placeholder."""
-class _Path(object):
-    def exists(self, p): return False
+"""SimFS: the simulator's virtual file system behind the netCDF4 stand-in (contract S8 in DESIGN.md).
+
+`path -> FileImage`.  Every handle to a path sees every completed storage call at once
+(write-through, one process on a page cache).  Durability is only consulted by the crash fault:
+the surviving image is the image as of some storage call between the last sync/close and the crash
+(= last-synced image + a seeded prefix of the log of calls since then).
+
+Fault injection is count-then-inject: `FS.tick(kind)` is called at the entry of every storage call;
+when the armed call number is reached it raises the armed fault instead of performing the call.
+"""
+import copy
+import fnmatch
+
+
+class Crash(BaseException):
+    """Simulated process crash at a storage call (not an Exception: library code must not swallow it)."""
+
+
+class VarImage(object):
+    def __init__(self, name, dtype, dims, is_str, fill_value=None):
+        self.name, self.dtype, self.dims, self.is_str, self.fill_value = name, dtype, tuple(dims), is_str, fill_value
+        self.data = None
+        self.missing = None
+        self.attrs = {}
+
+
+class DimImage(object):
+    def __init__(self, name, size):
+        self.name = name
+        self.unlimited = size is None
+        self.length = 0 if size is None else int(size)
+
+
+class FileImage(object):
+    def __init__(self, fmt):
+        self.format = fmt
+        self.dims = {}
+        self.vars = {}
+        self.attrs = {}
+        self.version = 0
+
+
+class SimFS(object):
+    def __init__(self):
+        self.reset()
+
+    def reset(self):
+        self.files = {}
+        self.handles = []          # every handle ever opened in this run, in creation order
+        self.ncalls = 0            # storage calls in the current step
+        self.total_calls = 0
+        self.armed = None          # (call number, "error" | "crash")
+        self.fired = []
+        self.track = False         # keep per-call images for the crash fault
+        self.history = {}          # path -> list of (image copy) since the last sync
+        self.synced = {}           # path -> image copy at the last sync/close
+        self.call_log = []
+
+    # -- fault machinery ----------------------------------------------------------------
+    def begin_step(self, armed=None):
+        self.ncalls = 0
+        self.armed = armed
+        self.call_log = []
+
+    def tick(self, kind):
+        self.ncalls += 1
+        self.total_calls += 1
+        self.call_log.append(kind)
+        if self.armed is not None and self.ncalls == self.armed[0]:
+            what = self.armed[1]
+            self.armed = None
+            self.fired.append((kind, what))
+            if what == "crash":
+                raise Crash("injected crash at storage call %d (%s)" % (self.ncalls, kind))
+            raise OSError("injected storage error at call %d (%s)" % (self.ncalls, kind))
+
+    def mutated(self, path):
+        """Called after every completed mutating storage call."""
+        if self.track and path in self.files:
+            self.history.setdefault(path, []).append(copy.deepcopy(self.files[path]))
+
+    def sync(self, path):
+        if self.track and path in self.files:
+            self.synced[path] = copy.deepcopy(self.files[path])
+            self.history[path] = []
+
+    def crash(self, rng_choice):
+        """All handles are dropped; each file falls back to last-synced image + a prefix of the log."""
+        for h in self.handles:
+            h._closed = True
+        for path in list(self.files):
+            hist = self.history.get(path, [])
+            base = self.synced.get(path)
+            k = rng_choice(len(hist) + 1)  # 0 = nothing after the last sync survived
+            if k == 0:
+                if base is None:
+                    del self.files[path]
+                else:
+                    self.files[path] = copy.deepcopy(base)
+            else:
+                self.files[path] = copy.deepcopy(hist[k - 1])
+            self.history[path] = []
+            if path in self.files:
+                self.synced[path] = copy.deepcopy(self.files[path])
+
+    # -- namespace ------------------------------------------------------------------------
+    def exists(self, path):
+        return path in self.files
+
+    def remove(self, path):
+        if path not in self.files:
+            raise FileNotFoundError(2, "No such file or directory", path)
+        del self.files[path]          # open handles keep the unlinked image
+        self.history.pop(path, None)
+        self.synced.pop(path, None)
+
+    def glob(self, pattern):
+        return sorted(p for p in self.files if fnmatch.fnmatchcase(p, pattern))
+
+    def open_handles(self, path=None):
+        return [h for h in self.handles if not h._closed and (path is None or h._path == path)]
+
+
+FS = SimFS()
+
+
+class _PathShim(object):
+    def exists(self, p):
+        return FS.exists(p)
+
+    def __getattr__(self, name):
+        import os.path
+        return getattr(os.path, name)
+
+
 class OsShim(object):
-    path = _Path()
-    def remove(self, p): raise OSError(p)
+    """What dimarray.io.nc sees as `os`: path.exists and remove go to SimFS, the rest is the real module."""
+    path = _PathShim()
+
+    def remove(self, p):
+        FS.tick("remove")
+        FS.remove(p)
+
+    def __getattr__(self, name):
+        import os
+        return getattr(os, name)
+
+
 class GlobShim(object):
-    def glob(self, p): return []
+    def glob(self, pattern):
+        return FS.glob(pattern)
